@@ -380,4 +380,55 @@ example : (handleSettings SettingsState.init 65536 [(5, 16383)]).2 = some PROTOC
     (handleSettings SettingsState.init 65536 [(2, 2)]).2 = some PROTOCOL_ERROR ∧
     (handleSettings SettingsState.init 65536 [(4, 2147483648)]).2 = some PROTOCOL_ERROR := by decide
 
+/-! ### request-level checks: header budget, content-length, PRIORITY -/
+
+/-- The header-list budget: a header block is admitted exactly when its size
+    (name + value + 32 per field) is within SETTINGS_MAX_HEADER_LIST_SIZE and its
+    field count within the field cap; otherwise the answer is a stream error
+    ENHANCE_YOUR_CALM (never a connection error, never silence). -/
+theorem C15_header_budget_respected (maxBytes maxFields : Nat) (fields : List (Nat × Nat)) :
+    (headerBudget maxBytes maxFields fields = none ↔ (fieldsSize fields ≤ maxBytes ∧ fields.length ≤ maxFields)) ∧
+    (∀ o, headerBudget maxBytes maxFields fields = some o → o = .streamError ENHANCE_YOUR_CALM) :=
+  ⟨headerBudget_none_iff maxBytes maxFields fields, fun o h => headerBudgetGo_some _ _ _ _ _ o h⟩
+
+example : headerBudget 65536 128 (List.replicate 128 (1, 1)) = none ∧
+    headerBudget 65536 128 (List.replicate 129 (1, 1)) = some (.streamError ENHANCE_YOUR_CALM) ∧
+    headerBudget 65536 128 (List.replicate 16 (1, 4000)) = none ∧
+    headerBudget 65536 128 (List.replicate 17 (1, 4000)) = some (.streamError ENHANCE_YOUR_CALM) := by decide
+
+/-- Content-length (RFC 9113 §8.1.1): a body of DATA frames is accepted to the
+    end only if it never exceeds the declared length and its total equals it
+    when END_STREAM arrives; any other body is answered with a stream error. -/
+theorem C15_content_length_exact (declared : Nat) (frames : List (Nat × Bool)) (total : Nat)
+    (h : contentLengthRun (some declared) 0 frames = (total, .handled)) :
+    total ≤ declared ∧ (frames.any (·.2) = true → total = declared) :=
+  contentLengthRun_handled declared frames 0 total (Nat.zero_le _) h
+
+example : contentLengthRun (some 5) 0 [(2, false), (3, true)] = (5, .handled) ∧
+    contentLengthRun (some 5) 0 [(2, false), (4, false)] = (6, .streamError PROTOCOL_ERROR) ∧
+    contentLengthRun (some 5) 0 [(2, false), (2, true)] = (4, .streamError PROTOCOL_ERROR) ∧
+    contentLengthRun none 0 [(2, false), (2, true)] = (4, .handled) := by decide
+
+/-- PRIORITY: a stream that depends on itself (RFC 9113 §5.3.1) is a stream error
+    on a stream sozu knows, a connection error on an idle id within the
+    look-ahead, and dropped with every other PRIORITY frame for ids sozu does not track. -/
+theorem C15_priority_self_dependency (known lookahead : Bool) (sid : Nat) :
+    priorityVerdict known lookahead sid sid =
+      (if known then .streamError PROTOCOL_ERROR else if lookahead then .connError PROTOCOL_ERROR else .handled) := by
+  cases known <;> cases lookahead <;> simp [priorityVerdict]
+
+example : priorityVerdict true false 3 1 = .handled ∧ priorityVerdict false true 5 5 = .connError PROTOCOL_ERROR := by decide
+
+/-- Oversized header blocks: however a header block is split into CONTINUATION
+    frames, as long as no violation is returned the accumulated fragments never
+    exceed the connection buffer; the frame that would is answered
+    GOAWAY(ENHANCE_YOUR_CALM). -/
+theorem C15_header_block_bounded_by_buffer (bufCap : Nat) (s : Flood) (len : Nat) (h : s.accHdr ≤ bufCap)
+    (hn : (continuationStep bufCap s len).2 = none) : (continuationStep bufCap s len).1.accHdr ≤ bufCap :=
+  continuationStep_bounded bufCap s len h hn
+
+example : (continuationStep 16393 { Flood.new FloodCfg.default with accHdr := 10000 } 6393).2 = none ∧
+    (continuationStep 16393 { Flood.new FloodCfg.default with accHdr := 10000 } 6394).2
+      = some (ENHANCE_YOUR_CALM, 16394, 16393) := by decide
+
 end Sozu.H2Wire
